@@ -519,6 +519,10 @@ func (o *obs) rawDrainItems(msg *imapclient.FetchMessageData) {
 }
 
 func (o *obs) rawDrainCmd(cmd *imapclient.FetchCommand) {
+	// the message the API was working on when it panicked is no longer in the channel
+	if prev := unexported(cmd, "prev").Interface().(*imapclient.FetchMessageData); prev != nil {
+		o.rawDrainItems(prev)
+	}
 	ch := unexported(cmd, "msgs").Interface().(chan *imapclient.FetchMessageData)
 	for msg := range ch {
 		o.fetchSeq("cmd(raw)", msg.SeqNum)
@@ -874,7 +878,7 @@ func (o *obs) provenance() {
 			continue
 		}
 		if !runs[fmt.Sprint(n.v)] {
-			o.viol("malformed-number-delivered:"+n.site, fmt.Sprintf("%s = %d, a number that occurs nowhere in the server's bytes", n.site, n.v))
+			o.viol("malformed-number-delivered:not-in-stream", fmt.Sprintf("%s = %d, a number that occurs nowhere in the server's bytes", n.site, n.v))
 		}
 	}
 }
@@ -1287,8 +1291,8 @@ func (o *obs) statusData(site string, d *imap.StatusData) {
 				return // APPENDLIMIT NIL is represented as the maximum
 			}
 			if *p == 0 {
-				if !bytes.Contains(o.input, []byte("0")) && !bytes.Contains(o.input, []byte("-1")) {
-					o.viol("malformed-number-delivered:status."+n, fmt.Sprintf("%s STATUS %s = 0 delivered although the server never wrote 0", site, n))
+				if !bytes.Contains(o.input, []byte("0")) {
+					o.viol("malformed-number-delivered:not-in-stream", fmt.Sprintf("%s STATUS %s = 0 delivered although the server never wrote 0", site, n))
 				}
 				return
 			}
